@@ -92,14 +92,14 @@ func NewTransport(
 
 	var dialFn transport_quic.DialFunc
 	if addrDialer != nil {
-		dialFn = func(dctx context.Context, addr string) (*quic.Conn, net.Addr, error) {
+		dialFn = func(dctx context.Context, rpeer peer.ID, addr string) (*quic.Conn, net.Addr, error) {
 			c, na, err := addrDialer(dctx, addr)
 			if err != nil {
 				return nil, nil, err
 			}
 
 			pc := rwc.NewPacketConn(ctx, c, laddr, na, mtu, int(bufSize))
-			conn, _, err := transport_quic.DialSession(ctx, le, opts.GetQuic(), pc, tpt.GetIdentity(), na, "")
+			conn, _, err := transport_quic.DialSession(ctx, le, opts.GetQuic(), pc, tpt.GetIdentity(), na, rpeer)
 			if err != nil {
 				_ = c.Close()
 				return nil, na, err
